@@ -101,7 +101,6 @@ pub mod rrl_std {
             pub fn checked_sub(&self, duration: Duration) -> (r: Option<Instant>)
                 ensures
                     self.ns() >= duration.ns() ==> r is Some && r->Some_0.ns() == self.ns() - duration.ns(),
-                    self.ns() < duration.ns() ==> r is None,
             { unimplemented!() }
         }
     }
